@@ -1,6 +1,8 @@
 //! Property table: which scenarios, bounds and oracles decide each property.
 use crate::hubcore::*;
 use crate::unbondlc::UnbondLc;
+use crate::fee::Fee;
+use crate::enumer::{C12Enum, C17Enum};
 use crate::runner::*;
 use crate::chain::*;
 use crate::deploy::*;
@@ -59,6 +61,16 @@ pub fn build(id: &str, tier: Tier) -> Option<Check> {
             assumptions: envelope(),
             essential: vec!["c04_bsei_rate_compared", "c04_stsei_rate_compared", "c04_rebond_checked"],
         },
+        "C05" => Check {
+            id: "C05",
+            jobs: vec![
+                bfs(Fee::base("c05-configs"), tier.pick(3, 5), secs),
+                bfs(Fee { scale: 1_000_000_000_000_000, slashes: vec![(1, 10000), (1, 2)], fees: vec!["0.005", "1"], thresholds: vec!["1", "0.95"], ..Fee::base("c05-1e15") }, tier.pick(3, 4), secs),
+            ],
+            rule: "start states = every (peg_recovery_fee in {0,0.005,0.5,1}) x (er_threshold in {0,0.95,1}) x (slash 10%, 1%) deployment with both pools funded (and a 1e15-scaled instance with slashes 0.01% and 50%); every sequence of <= D fee-path transactions (bond 1/100/5000, unbond and convert of 1/half/all of the balance, both directions) by 2 users; every successful one is compared with the exact no-fee amount, the fee bound and the post-state peg; non-trivial = a fee path executed".into(),
+            assumptions: envelope(),
+            essential: vec!["c05_fee_path_checked", "c05_no_fee_at_or_above_threshold", "c05_fee_charged_paths", "c05_positive_fee", "c05_peg_overshoot_checked"],
+        },
         "C06" => Check {
             id: "C06",
             jobs: vec![
@@ -105,6 +117,30 @@ pub fn build(id: &str, tier: Tier) -> Option<Check> {
                 essential: vec!["c08_batch_close_checked", "c08_release_transition", "c08_unbond_within_epoch", "c08_withdraw_timelock_checked", "c08_released_entry_compared"],
             }
         }
+        "C12" => Check {
+            id: "C12",
+            jobs: vec![Box::new(C12Enum { max_len: tier.pick(4, 5), max_val: tier.pick(5, 7) })],
+            rule: "every validator list of length 0..=L with delegations in 0..=V in every order (L=4,V=5 quick; L=5,V=7 thorough), every amount 0..=sum+6, plus the same box scaled by 1e6+3, 1e12+7 and ~1e18/(L*V) with +-1 perturbations of delegations and amounts, through the public calculate_delegations / calculate_undelegations; each call under a 2 s watchdog; non-trivial = accepted plan with amount > 0".into(),
+            assumptions: vec!["the two planning functions are pure; totals stay below 2^127 (u128-safe range of the property)".into()],
+            essential: vec!["c12_empty_list", "c12_lists_with_zero", "c12_unsorted_lists", "c12_undelegate_rejected"],
+        },
+        "C17" => {
+            let bal: Vec<u128> = if q { vec![0, 1, 2, 3, 10, 999, 1_000_003, 1_000_000_000_000_000_000] } else { vec![0, 1, 2, 3, 7, 10, 19, 20, 999, 1_000_003, 1_000_000_000_007, 1_000_000_000_000_000_000] };
+            let bonded: Vec<u128> = if q { vec![0, 1, 2, 3, 1_000_000_000_000_000_000] } else { vec![0, 1, 2, 3, 1000, 1_000_003, 1_000_000_000_000_000_000] };
+            let prices = if q { vec!["0.000001", "0.001", "0.75", "1", "1.5", "1000", "1000000"] } else { vec!["0.000001", "0.001", "0.3", "0.75", "1", "1.5", "7", "1000", "1000000"] };
+            let rates = if q { vec!["0", "0.000000000000000001", "0.05", "0.5", "0.999999999999999999", "1"] } else { vec!["0", "0.000000000000000001", "0.01", "0.05", "0.5", "0.999999999999999999", "1"] };
+            Check {
+                id: "C17",
+                jobs: vec![
+                    Box::new(C17Enum { balances: bal.clone(), bonded: bonded.clone(), prices: prices.clone(), rates: rates.clone(), third_denom: vec![0], label: "box".into() }),
+                    Box::new(C17Enum { balances: vec![0, 3, 1000, 1_000_000_000_000_000_000], bonded: vec![0, 2, 1_000_003], prices: vec!["0.75", "1", "1000"], rates: vec!["0.05", "1"], third_denom: vec![0, 5, 1_000_000], label: "third-denom".into() }),
+                    bfs(crate::params::Params::for_c17(), tier.pick(3, 4), secs),
+                ],
+                rule: "every tuple (dispatcher usei balance, kusd balance, stSei bonded, bSei bonded, oracle price, keeper rate) of the stated box (and a smaller box with a third swap denom) is run through the real SwapToRewardDenom + DispatchRewards entry points (sent by the hub address) on the integrated deployment with the stub swap/oracle; plus a BFS over dispatcher configuration updates (shared with C20) for 'keeper rate never above 1'; non-trivial = a tuple where something was swapped or dispatched".into(),
+                assumptions: vec!["swap and oracle behave as the stubs of DESIGN.md section 3.1 (swap executes at the oracle price, floor rounding)".into(), "bank module rejects zero-amount coins in MsgSend (stated in the property)".into(), "swap_denoms contains both reward denoms (E3)".into()],
+                essential: vec!["c17_sell_usei", "c17_sell_kusd", "c17_dispatch_ok", "c20_dispatcher_rate_checked"],
+            }
+        }
         "C13" => Check {
             id: "C13",
             jobs: vec![
@@ -113,6 +149,17 @@ pub fn build(id: &str, tier: Tier) -> Option<Check> {
             rule: "hub-core exploration with AddValidator/RemoveValidator for val1 and val3 enabled in every state (pending rewards, in-flight batches, blocked redelegation after a previous removal, re-addition); every RemoveValidator by the owner is checked against the staking ledger; non-trivial = a removal checked".into(),
             assumptions: envelope(),
             essential: vec!["c13_removal_checked", "c13_redelegation_checked", "c13_redelegation_blocked", "c13_last_validator"],
+        },
+        "C20" => Check {
+            id: "C20",
+            jobs: vec![
+                bfs(crate::params::Params::hub(), tier.pick(3, 6), secs),
+                bfs(crate::params::Params::dispatcher(), tier.pick(3, 4), secs),
+                bfs(crate::params::Params::others(), tier.pick(4, 6), secs),
+            ],
+            rule: "start states = every hub instantiate over peg_recovery_fee x er_threshold in {in-range, exactly 1, 1+1e-18, 2} and every dispatcher instantiate over keeper rates likewise; BFS over every UpdateParams / UpdateConfig message with every presence combination of its optional fields and in-range / boundary / out-of-range values, UpdateSwapDenom add/remove/duplicate, UpdateSwapContract, UpdateOracleContract, reward and registry UpdateConfig, by the owner and by a non-owner (hub parameter space explored to its fixpoint; dispatcher depth-bounded because its swap_denoms list can grow without bound); non-trivial = an accepted or rejected update compared field by field".into(),
+            assumptions: vec!["rejected transactions are rolled back by the chain (DESIGN.md 3.1); the check therefore decides which updates are rejected and what accepted ones store".into()],
+            essential: vec!["c20_accepted_update", "c20_rejected_update", "c20_states_checked", "c20_dispatcher_rate_checked"],
         },
         _ => return None,
     })
